@@ -197,6 +197,10 @@ class Spell:
 
 DEFAULT = Spell()
 
+# what a comment may contain: anything
+COMMENT_TEXTS = ["note", "2*3 = 6", "** star **", "a, b; c", "say \"hi\" to 'c'", "// slashes", "/* opener", ".if 0", ".endif", "r16 = tmp + @0",
+                 "label: nop", "trailing \\", "(unbalanced", "tab\there", "über µC", ".macro x", ".endm", "*", "x */* y", ";;;"]
+
 
 def expr_text(a, sp):
     out = []
@@ -300,12 +304,15 @@ def line_text(l, sp):
     else:
         raise ValueError("cannot render " + k)
     s = pre + body
-    if sp.comment == ";":
-        s += " ; note %d" % l["ln"]
-    elif sp.comment == "//":
-        s += " // note"
-    elif sp.comment == "/*":
-        s += " /* note */"
+    if sp.comment:
+        sp.n += 1
+        text = COMMENT_TEXTS[(sp.n + l["ln"]) % len(COMMENT_TEXTS)]
+        if sp.comment == ";":
+            s += " ; " + text
+        elif sp.comment == "//":
+            s += " // " + text
+        elif sp.comment == "/*":
+            s += " /* " + text.replace("*/", "* /") + " */"
     return s
 
 
